@@ -153,8 +153,20 @@ CFG = {
             "compressed by the REAL zlib at every level 0-9, and random chains <= 3 with real-zlib Flate layers; fz: random "
             "bytes and single-byte mutations of valid encodings (correspondence and no-panic only, judged `skip`). "
             "The judge rebuilds dictionary and content from the recipe with the spec encoders, rejects a case whose data "
-            "differ, and derives the expected outcome from the recipe. non-trivial = recipe with >= 1 filter layer and a "
-            "non-empty payload, or a rejecting shape, or a corruption, or a real-zlib case of >= 16 bytes",
+            "differ, and derives the expected outcome from the recipe. "
+            "VIEW TWINS (Driver/Views.lean, corpus views.case): every rt / sh / mal / rz case (all declare the content's length; tier budget: of the contents above 2 kB every eighth; not the fz cases) runs a second time as "
+            "`vw <steps> <pre> <suf> <head> <tail> <case>`: the stream OBJECT is written as text - head = `n g obj <<dictionary>> stream EOL` (spec-side renderer of the case's dictionary), the content, tail = `EOL endstream endobj`, in "
+            "one of six styles (object identifier, white space, a comment, LF / CRLF after `stream`, LF / CRLF / CR / nothing before `endstream`) - and that text is a window strictly inside ONE larger allocation pre ++ window ++ suf, "
+            "selected by a chain of RestrictView / RestrictViewFrom steps (the harness checks that the view shows exactly the window). The implementation parses the object ON THE VIEW (parse_pdf_indirect_obj, as the crate does with a "
+            "file) and decode_stream runs on the StreamT so obtained: dictionary and content come from the view. Axes: bytes in front of the window cycled over 1, 7, 11, 2, 0, 13, 1000, 64, 5, 3 of them (a file header, a complete stream "
+            "object and a plain object, or random bytes; period 16) x chain of restrictions (RestrictView; RestrictViewFrom; From then View; View then View with junk on both sides; View then From; a View from 0 then From; three deep; "
+            "period 7) x what lies behind the window (period 5: more encoded data with the end-of-data markers `~>` / `>`, `endstream endobj` again, a further complete stream object, an empty zlib stream) x the six styles. "
+            "Output `<plain output> @ <content start> <content size> <cursor>`: the unchanged code reports all three as cursors of the view (|head|, |content|, |window|). The model parses the window's bytes alone (C05 model parseIndirect, "
+            "then decodeStream on what it read: model of a view = model of its window, Parsley.C17.view_refines_copy); the oracle checks that head / tail are the rendering of the case's dictionary, judges the decoder's output from the "
+            "recipe exactly as in the plain case, and requires the three cursors; classes of rejected view cases carry the prefix `view-`. CUT family (view only): 4 stream objects (ASCIIHex, ASCII85 over Flate, unfiltered empty, Flate with "
+            "the content `endstream endobj`) x 6 styles cut at every third byte and at each of the last 12 (thorough: EVERY byte), the rest of the object behind the window: must be rejected (`cut-accepted`). Per tier: quick 4434 ordinary + "
+            "4076 view twins + 998 cuts, thorough 22968 + 19054 + 2430. non-trivial = recipe with >= 1 filter layer and a "
+            "non-empty payload, or a rejecting shape, or a corruption, or a real-zlib case of >= 16 bytes (a view case counts when there are bytes in front of or behind the window; a cut case always)",
     "trusted_base": COMMON_TB + [
         "modelled from vendored source, not verified: binascii-0.1.4 hex2bin, ascii85-0.2.1 decode (incl. str::trim on the "
         "staged chars and u32 overflow checks of the dev profile: the harness is built with overflow-checks = true; in a "
